@@ -9,6 +9,7 @@ use egglog::EGraph;
 pub mod c01;
 pub mod c03;
 pub mod c04;
+pub mod c05;
 pub mod c10;
 pub mod c13;
 pub mod c14;
@@ -17,6 +18,7 @@ pub mod corpus;
 pub mod c16;
 pub mod c17;
 pub mod c19;
+pub mod c20;
 
 /// Deterministic pseudo-random stream derived from the case itself (a pure
 /// function of the input; used only to choose which observations to make).
